@@ -485,13 +485,13 @@ impl Memfs {
                     let mode = dst.mode();
                     self._add(guard, dst)?;
 
-                    // An existing destination file gets the mode as well, same as the real filesystem
-                    if let Some(entry) = guard.get_entry_mut(&dst_path) {
-                        entry.set_mode(Some(mode));
-                    }
-
                     // Copy the src file over as well
                     if !src.is_symlink() {
+                        // An existing destination file gets the mode as well, same as the real filesystem
+                        if let Some(entry) = guard.get_entry_mut(&dst_path) {
+                            entry.set_mode(Some(mode));
+                        }
+
                         let dst_file = self._clone_file(guard, src.path())?;
                         guard.insert_file(dst_path, dst_file);
                     }
